@@ -76,6 +76,7 @@ ACTS = {
     'SIR_FixedRecovery.infect': ['CCL INFECTED', 'OCC', 'HIT', 'POSTL T SIR.remove'],
     'SIS_FixedRecovery.infect': ['CCL INFECTED', 'OCC', 'HIT', 'POSTL T SIS.recover'],
     'Opinion.affect': ['CCL SPREADER', 'OCC', 'HIT'], 'Opinion.stifle': ['CCL STIFLER'],
+    'Monitor.observe': ['OBSERVE'],
 }
 EDGE_HANDLERS = {'SIR.infect', 'SIS.infect', 'SEIR.infect', 'SEIR.infectAsymptomatic', 'SIR_FixedRecovery.infect',
                  'SIS_FixedRecovery.infect', 'Opinion.affect', 'Opinion.stifle', 'SIvR.infect'}
@@ -210,6 +211,10 @@ class Extract:
     def hkey(self, ef):
         """name of an event function: qualname[@instance] for bound methods, scripted handlers by their own name"""
         f = getattr(ef, '_orig', ef)
+        if getattr(f, '__qualname__', '').endswith('postRepeatingEvent.<locals>.repeat'):
+            cells = dict(zip(f.__code__.co_freevars, [c.cell_contents for c in f.__closure__]))
+            k, p, qn = self.hkey(cells['ef'])
+            return (k + '#repeat', p, qn + '#repeat')
         if hasattr(f, '__func__'):
             p = f.__self__; qn = f.__func__.__qualname__
             nm = p.instanceName()
@@ -231,6 +236,11 @@ class Extract:
             raise AssertionError("scripted handlers are registered by register_script")
         i = self.inst.get(id(p)); ci = self.cidx.get(id(p)); cls = type(p)
         acts = []
+        rep = qn.endswith('#repeat')
+        if rep:
+            f = getattr(ef, '_orig', ef)
+            cells = dict(zip(f.__code__.co_freevars, [c.cell_contents for c in f.__closure__]))
+            qn = qn[:-len('#repeat')]
         for a in ACTS[qn]:
             w = a.split()
             if w[0] == 'CCL': acts.append(f"CCL {i} {ci[getattr(cls, w[1])]}")
@@ -238,8 +248,11 @@ class Extract:
             elif w[0] == 'POSTL':
                 tq = w[2]; tcls = {'SIR.remove': 'remove', 'SIS.recover': 'recover'}[tq]
                 acts.append(f"POSTL {fb(p._tInfected)} {self.hid(getattr(p, tcls))}")
+            elif w[0] == 'OBSERVE': acts.append("OBSERVE")
             else: raise ValueError(a)
-        kind = 'E' if qn in EDGE_HANDLERS else 'N'
+        if rep:
+            acts.append(f"POSTE {fb(cells['dt'])} {self.hnames.index(key)}")
+        kind = 'E' if qn in EDGE_HANDLERS else ('X' if qn.startswith('Monitor.') else 'N')
         self.hkind[key] = kind
         return f"HANDLER {key} {kind} " + ' ; '.join(acts)
 
@@ -259,6 +272,12 @@ class Extract:
                 txt = txt.replace('{h%d}' % hh, str(ids[hh]))
             self.hlines[key] = f"HANDLER {key} {kind} " + txt
         return ids
+
+
+def _thunk_ef(thunk):
+    """the event function inside the `lambda: ef(t, e)` that Dynamics.postEvent queues"""
+    cells = dict(zip(thunk.__code__.co_freevars, [c.cell_contents for c in thunk.__closure__]))
+    return cells['ef']
 
 
 def elem_pair(e):
@@ -403,6 +422,7 @@ def run_case(case):
     class D(Dyn):
         def simulationStarted(self, params):
             exp.append("START " + state_line(self, st['ex']))
+            st['sizes'] = [(None, [len(l) for l in self.loci().values()])]
             g = self.network()
             self._vp_seeds = {id(q): {n for n in g.nodes() if g.nodes[n].get(q.COMPARTMENT) in
                                       ({q.INFECTED} if hasattr(q, 'INFECTED') and not hasattr(q, 'EXPOSED') else
@@ -421,6 +441,8 @@ def run_case(case):
                 if isinstance(q, ScriptProc):
                     log += q.log; q.log = []
             info['events'] += 1; info['posted'] += 1 if cur['posted'] else 0; info['handlers'].add(key)
+            if not key.startswith('Monitor.'):
+                st.setdefault('sizes', []).append((cur['own'], [len(l) for l in self.loci().values()]))
             if info['events'] > case.get('maxevents', 400):
                 raise CaseTooBig()
             if case['dyn'] == 'sto' and not cur['posted'] and st.get('gil') and not info['oracle']:
@@ -547,6 +569,10 @@ def run_case(case):
             for (l, pr, f, nm) in p._perLocusEvents: fix.append(f"FIXED {ex.lidx[id(l)]} {fb(pr)} {ex.hid(f)}")
         # set-up steps in the order the real code performs them: every build, then every setUp
         setup = []
+        for p in ex.leaves:          # events posted by build(): before every setUp
+            if isinstance(p, Monitor):
+                ev = [e for e in d._postedEvents if e[2] is p][0]
+                setup.append(f"S_POST {fb(0.0)} 0 0 {ex.hid(ev[3].__closure__[0].cell_contents if False else _thunk_ef(ev[3]))}")
         for p in ex.leaves:
             if isinstance(p, CompartmentedModel):
                 i = ex.inst[id(p)]; ci = ex.cidx[id(p)]
@@ -564,10 +590,13 @@ def run_case(case):
                         a, b = elem_pair(e); setup.append(f"S_POST {fb(t)} {a} {b} {ids[h]}")
         eq = []
         for p in ex.leaves:
-            if isinstance(p, Opinion):
+            if type(p).__name__ == 'NetworkStatistics':
+                eq.append(f"EQ {fb(0.0)} none")
+            elif isinstance(p, Opinion):
                 eq.append(f"EQ {fb(p.maximumTime())} {ex.lidx[id(p.locus(Opinion.GP))]},{ex.lidx[id(p.locus(Opinion.PPT))]}")
             else:
                 eq.append(f"EQ {fb(p.maximumTime())} none")
+        if any(type(p).__name__ == 'NetworkStatistics' for p in ex.leaves): cfg.append("STATS")
         for k in ex.hnames: cfg.append(ex.hlines[k])
         st['cfg'] = cfg + per + fix + eq + setup
 
@@ -576,17 +605,27 @@ def run_case(case):
         rc = d.set(case['params']).run(fatal=True)
         md = rc['metadata']; res = rc['results']
         left = 0
+        mon = ""
+        if Monitor.OBSERVATIONS in res:
+            obs = res[Monitor.OBSERVATIONS]
+            series = [res[Monitor.timeSeriesForLocus(n)] for n in d.loci().keys()]
+            mon = " mon=" + ','.join(str(bits(t)) for t in obs) + "/" + ';'.join(','.join(str(sr_[k]) for sr_ in series) for k in range(len(obs)))
+        from epydemic import NetworkStatistics as NS
+        if NS.N in res:
+            mon += (f" stats=N:{res[NS.N]},M:{res[NS.M]},kmean:{bits(res[NS.KMEAN])},kmax:{res[NS.KMAX]},ncomp:{res[NS.COMPONENTS]},"
+                    f"lcc:{res[NS.LCC]},slcc:{res[NS.SLCC]}")
         if case['dyn'] == 'sto':
-            exp.append(f"END t={bits(md[Dynamics.TIME])} events={md[Dynamics.EVENTS]} leftover={left}")
+            exp.append(f"END t={bits(md[Dynamics.TIME])} events={md[Dynamics.EVENTS]} leftover={left}{mon}")
         else:
             exp.append(f"END t={bits(md[Dynamics.TIME])} events={md[Dynamics.EVENTS]} "
-                       f"steps={md[SynchronousDynamics.TIMESTEPS_WITH_EVENTS]} leftover={left}")
+                       f"steps={md[SynchronousDynamics.TIMESTEPS_WITH_EVENTS]} leftover={left}{mon}")
         info['results'] = {k: v for k, v in res.items() if isinstance(v, (int, float, str))}
         info['metadata_events'] = md[Dynamics.EVENTS]; info['time'] = md[Dynamics.TIME]
         if case['dyn'] == 'sto':
             late = [(tt, j) for j, (tt, _) in ref.items() if tt < md[Dynamics.TIME]]
             if late: qviol(f"run ended at {md[Dynamics.TIME]} with event id {min(late)[1]} still pending for {min(late)[0]}")
         if case['dyn'] == 'syn': check_skipped()
+        case['_sizes'] = st.get('sizes', [])
         for f in case.get('finals', ()):
             r = f(d, st['ex'], res, md, case)
             if r: info['oracle'].append((f.__name__.replace('final_', ''), r))
